@@ -45,7 +45,7 @@ fn poll_expired_timers_loop(timers_cell: &mut TimerWheel, mut poll_events: Vec<P
         r is Ok,
         // C02: EVERY timer that is due at the clock read is popped -- whether or not fd events were collected --,
         // nothing that is not due is popped (never early), nothing is added to the heap
-        exists|now: Instant| #[trigger] due_exactly_popped(old(timers_cell)@, final(timers_cell)@, now),
+        exists|now: Instant| clock_read(now) && #[trigger] due_exactly_popped(old(timers_cell)@, final(timers_cell)@, now),
         forall|y: TimeoutData| #[trigger] final(timers_cell)@.count(y) <= old(timers_cell)@.count(y),
         // one event per popped entry, appended AFTER the fd events, which are all kept in order
         r->Ok_0@.len() == poll_events@.len() + (old(timers_cell)@.len() - final(timers_cell)@.len()),
@@ -60,13 +60,13 @@ fn poll_expired_timers_loop(timers_cell: &mut TimerWheel, mut poll_events: Vec<P
             forall|y: TimeoutData| #[trigger] timers@.count(y) <= timers0.count(y),
             forall|y: TimeoutData| #[trigger] timers@.count(y) < timers0.count(y) ==> y.ns() <= nanos(now),
             poll_events@.len() == fd_events.len() + (timers0.len() - timers@.len()),
-            timers@.len() <= timers0.len(),
+            timers@.len() <= timers0.len(), clock_read(now),
             forall|i: int| 0 <= i < fd_events.len() ==> poll_events@[i] == fd_events[i],
             forall|i: int| fd_events.len() <= i < poll_events@.len() ==>
                 (#[trigger] poll_events@[i]).readiness.readable && !poll_events@[i].readiness.writable && !poll_events@[i].readiness.error,
         ensures
             // (also the witness term for the existential in the postcondition)
-            due_exactly_popped(timers0, timers@, now),
+            due_exactly_popped(timers0, timers@, now) && clock_read(now),
         decreases timers@.len(),
 //@ endslice
 
